@@ -7,7 +7,35 @@ from pyvc.groups import ob
 import specs.es_control as SK
 
 
+FN_WRAPPERS = ("arrow", "funcexpr", "callback", "getter")
+LOOPS = ("while", "dowhile", "for", "forin", "forof", "labelled-loop")
+
+
 def _valid_labels(combo, leaf):
+    if leaf[0] in ("break", "continue"):
+        # a jump cannot cross a function boundary: the target must lie inside the innermost nested function
+        inner = list(combo)
+        for i in range(len(combo) - 1, -1, -1):
+            if combo[i] in FN_WRAPPERS:
+                inner = list(combo[i + 1:])
+                outer_fn = True
+                break
+        else:
+            outer_fn = False
+        if outer_fn:
+            if leaf[1] is None:
+                ok = False
+                for c in reversed(inner):           # innermost first
+                    if c in LOOPS:
+                        ok = True
+                        break
+                    if leaf[0] == "break" and c.startswith("switch") and c != "switch-nodefault-miss":
+                        ok = True                   # (switch-nodefault-miss repeats the hole after the switch)
+                        break
+                if not ok:
+                    return False
+            else:
+                combo = tuple(inner)
     lab = leaf[1] if leaf[0] in ("break", "continue") else None
     if lab is None:
         return True
@@ -116,3 +144,158 @@ groups.group(id="C05.bounded.semantics", prop="C05", kind="B", functions=["micro
     _semantic_group("C05", 2, 3))
 groups.group(id="C07.bounded.semantics", prop="C07", kind="B", functions=["microjs.context:Context.eval"])(
     _semantic_group("C07", 2, 3, want_leaves=("throw", "callthrow", "return", "break", "continue")))
+
+
+# ---- bounded: the same skeletons as the LAST top-level statement (completion-value lowering) --------------------------
+def _toplevel_chunk(progs):
+    """side effects of a skeleton compiled through Compiler._compile_statement_for_value (the last statement of a
+    script), alone and with empty-block tails, equal the reference log"""
+    from microjs import Context
+    from microjs.errors import JSError
+    out = []
+    n = 0
+    for combo, leaf, prog in progs:
+        exp_log, exp_out = SK.expected(prog)
+        if exp_out[0] == "syntax":
+            continue
+        body = SK.js(prog)
+        for vname, src in (("last", body), ("block-empty-tail", "{ " + body + " {} }"), ("nested-empty-tail", "{ " + body + " { L('tl'); { {} } } }"),
+                           ("if-empty-tail", "if (C('ti', true)) { " + body + " {} }"), ("else-empty-tail", "if (C('ti', false)) {} else { " + body + " {} }")):
+            want = list(exp_log)
+            if vname.startswith(("if", "else")):
+                want = ["ti"] + want
+            if vname == "nested-empty-tail" and exp_out[0] != "throw":
+                want = want + ["tl"]
+            n += 1
+            ctx = Context(time_limit=5, memory_limit=2_000_000)
+            try:
+                ctx.eval(SK.PRELUDE + src)
+                raised = None
+            except JSError as e:
+                raised = "JSError"
+            except Exception as e:  # noqa
+                raised = type(e).__name__
+            try:
+                got = ctx.eval("log.join(',')")
+            except Exception as e:  # noqa
+                got = "<" + type(e).__name__ + ">"
+            ok = got == ",".join(want) and ((raised == "JSError") == (exp_out[0] == "throw")) and raised in (None, "JSError")
+            if not ok:
+                out.append((combo, leaf, vname, SK.PRELUDE + src, (got, raised), (",".join(want), exp_out[0])))
+    return n, out
+
+
+def _toplevel_group(tier="quick", seed=0):
+    import multiprocessing as mp
+    depth = 1 if tier == "quick" else 2
+    progs = []
+    for d in range(0, depth + 1):
+        for combo, leaf, prog in SK.skeletons(d, outer_loop=True):
+            if leaf[0] == "return" or not _valid_labels(combo, leaf):
+                continue
+            if any(c in FN_WRAPPERS for c in combo):
+                continue
+            progs.append((combo, leaf, prog))
+    chunks = [progs[i::16] for i in range(16)]
+    with mp.get_context("fork").Pool(16) as pool:
+        rs = pool.map(_toplevel_chunk, chunks)
+    total = sum(r[0] for r in rs)
+    bad = [b for r in rs for b in r[1]]
+    by = {}
+    for combo, leaf, vname, src, got, want in bad:
+        by.setdefault(vname, (src, got, want))
+    out = []
+    for vname in ("last", "block-empty-tail", "nested-empty-tail", "if-empty-tail", "else-empty-tail"):
+        b = by.get(vname)
+        out.append(ob(f"C05.bounded.toplevel.{vname}", b is None, "B",
+                      f"{total // 5} skeletons as the last statement of a script ({vname}) do what the source says" if b is None else f"engine {b[1]} expected {b[2]}",
+                      witness=(b[0] if b else None), confirmed=True if b else None, domain=total // 5))
+    return out
+
+
+groups.group(id="C05.bounded.toplevel", prop="C05", kind="B", functions=["microjs.compiler:Compiler._compile_statement_for_value"])(_toplevel_group)
+
+
+# ---- variable kinds: every access form reaches the same variable ------------------------------------------------------
+def _binding_extra(tier="quick", seed=0):
+    """loop variables, catch parameters, hoisted functions, closures sharing one variable (specs/gen_bindings.EXTRA)"""
+    from microjs import Context
+    import specs.gen_bindings as GB
+    out = []
+    for cid, src, exp in GB.EXTRA:
+        try:
+            got = Context(time_limit=5).eval(src)
+        except BaseException as e:  # noqa
+            got = f"!{type(e).__name__}: {e}"[:120]
+        ok = got in exp if isinstance(exp, set) else (got == exp and isinstance(got, bool) == isinstance(exp, bool))
+        out.append(ob(f"C05.bounded.bindings.{cid}", ok, "B", f"{src[:80]} => {got!r}" + ("" if ok else f" (ES: {exp!r})"),
+                      witness=None if ok else src, confirmed=None if ok else True, domain=1))
+    return out
+
+
+groups.group(id="C05.bounded.bindings", prop="C05", kind="B", functions=["microjs.compiler:Compiler._emit_store_variable"])(_binding_extra)
+
+
+def _storage_classes(tier="quick", seed=0):
+    """K5: in the code the real compiler emits for a function, every access to one variable (load, store, update,
+    for-in/for-of target, catch binding, typeof, compound assignment) uses ONE storage class -- the cell when the
+    variable is captured by an inner function, the local slot otherwise, the closure slot in the inner function"""
+    from pyvc import schemes as K
+    from microjs.opcodes import OpCode
+    W = K.widths()
+    out = []
+    accesses = {
+        "read": "r = v;", "assign": "v = 1;", "compound": "v += 1;", "pre-update": "++v;", "post-update": "r = v--;", "typeof": "r = typeof v;",
+        "forin-target": "for (v in o) { }", "forof-target": "for (v of a) { }", "forin-var": "for (var v in o) { }", "forof-var": "for (var v of a) { }",
+        "catch-param": "try { throw 1; } catch (v) { r = v; }", "call-arg": "g(v);", "member-base": "r = v.x;",
+    }
+    fams = {"local": {OpCode.LOAD_LOCAL, OpCode.STORE_LOCAL}, "cell": {OpCode.LOAD_CELL, OpCode.STORE_CELL},
+            "closure": {OpCode.LOAD_CLOSURE, OpCode.STORE_CLOSURE}}
+    for capture in ("uncaptured", "captured"):
+        for aname, acc in accesses.items():
+            decl = "" if aname in ("forin-var", "forof-var", "catch-param") else "var v;"
+            cap = "var getv = function () { return v; };" if capture == "captured" else ""
+            src = f"function P(o, a, g) {{ var r; {decl} {cap} {acc} return r; }}"
+            try:
+                c = K.compile_src(src)
+                f = [x for x in K.all_functions(c) if x.name == "P"][0]
+                used = set()
+                slot = f.locals.index("v") if "v" in f.locals else None
+                cell = f.cell_vars.index("v") if "v" in f.cell_vars else None
+                ins, err = K.decode(f.bytecode, W)
+                for op, arg, _w in ins.values():
+                    if op in fams["local"] and arg == slot:
+                        used.add("local")
+                    if op in fams["cell"] and arg == cell:
+                        used.add("cell")
+                want = {"cell"} if capture == "captured" else {"local"}
+                ok = used == want
+                detail = f"{src}: accesses use {sorted(used)}, expected {sorted(want)}"
+            except Exception as e:  # noqa
+                ok, detail = False, f"{src}: {type(e).__name__}: {e}"
+            out.append(ob(f"C05.scheme.storage.{capture}.{aname}", ok, "K5", detail, witness=None if ok else src, confirmed=False if not ok else None))
+        # the inner function reaches the variable through its closure slot only
+    for aname, acc in accesses.items():
+        if aname in ("forin-var", "forof-var", "catch-param"):
+            continue
+        src = f"function P(o, a, g) {{ var v; var r; var inner = function () {{ {acc} return r; }}; return inner(); }}"
+        try:
+            c = K.compile_src(src)
+            f = [x for x in K.all_functions(c) if x.name != "P" and x.name != "<program>"][0]
+            used = set()
+            fv = f.free_vars.index("v") if "v" in f.free_vars else None
+            ins, err = K.decode(f.bytecode, W)
+            for op, arg, _w in ins.values():
+                if op in fams["closure"] and arg == fv:
+                    used.add("closure")
+                if op in (OpCode.LOAD_NAME, OpCode.STORE_NAME, OpCode.TYPEOF_NAME) and f.constants[arg] == "v":
+                    used.add("global-name")
+            ok = used == {"closure"}
+            detail = f"{src}: the inner function uses {sorted(used)}"
+        except Exception as e:  # noqa
+            ok, detail = False, f"{src}: {type(e).__name__}: {e}"
+        out.append(ob(f"C05.scheme.storage.enclosing.{aname}", ok, "K5", detail, witness=None if ok else src, confirmed=False if not ok else None))
+    return out
+
+
+groups.group(id="C05.schemes.storage", prop="C05", kind="K5", functions=["microjs.compiler:Compiler._compile_expression", "microjs.compiler:Compiler._emit_store_variable"])(_storage_classes)
